@@ -1,8 +1,39 @@
 (* C19 - Timing adjustment and concurrent-caption merging keep all text in order.
-   Only statements closed by `exact`, with Print Assumptions. *)
+   Only statements closed by `exact`, with Print Assumptions; Examples show non-vacuity.
+   Groups:  (1) the model MEETS THE ORACLE  (2) model = statement-level spec  (3) facts that pin the spec's
+   vocabulary (runs)  (4) reading aids: unfoldings of the spec, named _unfold (definitional, no content of their own). *)
 From Coq Require Import List ZArith QArith Bool.
-From PV Require Import lib.Sx lib.Result model.Base spec.SpecBase proofs.BaseFacts.
+From PV Require Import lib.Sx lib.Result model.Base model.BaseObj spec.SpecBase proofs.BaseFacts proofs.BaseObjFacts.
 Import ListNotations.
+
+(* ---------------- (1) the model meets the decidable property oracle, all inputs ---------------- *)
+
+(* adjust, several languages, every rational skew/offset *)
+Theorem C19_adjust_ok : forall skew off langs, ok_adjust skew off langs (adjust skew off langs) = true.
+Proof. exact adjust_ok. Qed.
+Print Assumptions C19_adjust_ok.
+
+(* adjust on a heap of Caption OBJECTS (one object under several languages / several times in one list):
+   the repaired loop shows an observer exactly what the value model computes, for every alias structure ... *)
+Theorem C19_adjust_objects_value : forall skew off h langs,
+  (forall ids k, In ids langs -> In k ids -> (k < length h)%nat) ->
+  adjust_objs skew off h langs = adjust skew off (map (map (deref h)) langs).
+Proof. exact adjust_objs_value. Qed.
+Print Assumptions C19_adjust_objects_value.
+(* ... and therefore meets the oracle on the values the languages refer to *)
+Theorem C19_adjust_objects_ok : forall skew off h langs, refs_ok h langs = true ->
+  ok_adjust skew off (map (map (deref h)) langs) (adjust_objs skew off h langs) = true.
+Proof. exact adjust_objs_ok. Qed.
+Print Assumptions C19_adjust_objects_ok.
+
+(* merge, several languages: never raises on its domain, meets the oracle (runs joined AND merging again
+   changes nothing) *)
+Theorem C19_merge_ok : forall langs, forallb nodes_nonempty langs = true ->
+  ok_merge langs (merge_concurrent langs) (do m <- merge_concurrent langs; merge_concurrent m) = true.
+Proof. exact merge_ok. Qed.
+Print Assumptions C19_merge_ok.
+
+(* ---------------- (2) model = statement-level spec ---------------- *)
 
 (* adjust: the loop is exactly "retime every caption, keep order, drop the negative starts" *)
 Theorem C19_adjust_filter_map : forall skew off caps,
@@ -10,26 +41,54 @@ Theorem C19_adjust_filter_map : forall skew off caps,
 Proof. exact adjust_lang_filter_map. Qed.
 Print Assumptions C19_adjust_filter_map.
 
-(* retime is t -> t*skew+off on start and end and leaves the nodes untouched *)
-Theorem C19_retime_affine : forall skew off c,
-  c_start (retime skew off c) == c_start c * skew + off /\
-  c_end (retime skew off c) == c_end c * skew + off /\
-  c_nodes (retime skew off c) = c_nodes c.
-Proof. exact retime_affine. Qed.
-Print Assumptions C19_retime_affine.
-
-(* hence the model meets the statement-level spec, caption by caption, for every list *)
+(* against spec_adjust_lang (written from the statement): same length, caption by caption equal as rationals *)
 Theorem C19_adjust_meets_spec : forall skew off caps,
   Forall2 cap_equiv (adjust_lang skew off caps) (spec_adjust_lang skew off caps).
 Proof. exact adjust_meets_spec. Qed.
 Print Assumptions C19_adjust_meets_spec.
+Theorem C19_adjust_langs_meet_spec : forall skew off langs,
+  Forall2 (Forall2 cap_equiv) (adjust skew off langs) (map (spec_adjust_lang skew off) langs).
+Proof. exact adjust_langs_meet_spec. Qed.
+Print Assumptions C19_adjust_langs_meet_spec.
 
-(* merge: never raises, and equals "join every maximal run" *)
+(* merge = "join every maximal run", per language and for the whole set *)
 Theorem C19_merge_runs : forall caps, nodes_nonempty caps = true ->
   merge_lang caps = Ok (map join_run (runs caps)).
 Proof. exact merge_lang_spec. Qed.
 Print Assumptions C19_merge_runs.
+Theorem C19_merge_concurrent_runs : forall langs, forallb nodes_nonempty langs = true ->
+  merge_concurrent langs = Ok (map spec_merge_lang langs).
+Proof. exact merge_concurrent_spec. Qed.
+Print Assumptions C19_merge_concurrent_runs.
 
+(* merging again changes nothing *)
+Theorem C19_merge_idempotent : forall caps, nodes_nonempty caps = true ->
+  (do m <- merge_lang caps; merge_lang m) = merge_lang caps.
+Proof. exact merge_twice. Qed.
+Print Assumptions C19_merge_idempotent.
+Theorem C19_merge_concurrent_idempotent : forall langs, forallb nodes_nonempty langs = true ->
+  (do m <- merge_concurrent langs; merge_concurrent m) = merge_concurrent langs.
+Proof. exact merge_concurrent_twice. Qed.
+Print Assumptions C19_merge_concurrent_idempotent.
+
+(* "leaves every other caption as it was": a list without two consecutive equal spans is returned unchanged,
+   and a caption alone in its run is carried over as it is *)
+Theorem C19_merge_identity : forall caps, nodes_nonempty caps = true -> no_adjacent_equal caps = true ->
+  merge_lang caps = Ok caps.
+Proof. exact merge_lang_identity. Qed.
+Print Assumptions C19_merge_identity.
+Theorem C19_merge_keeps_singletons : forall caps c, nodes_nonempty caps = true -> In (c, []) (runs caps) ->
+  exists out, merge_lang caps = Ok out /\ In c out.
+Proof. exact merge_lang_keeps_singletons. Qed.
+Print Assumptions C19_merge_keeps_singletons.
+
+(* outside the domain (node lists emptied after construction) the only possible exception is Caption()'s
+   refusal of an empty node list; captions[0] is never evaluated on an empty run *)
+Theorem C19_merge_total : forall caps e, merge_lang caps = Err e -> e = ENodeListEmpty.
+Proof. exact merge_lang_total. Qed.
+Print Assumptions C19_merge_total.
+
+(* ---------------- (3) what "maximal run of consecutive captions" means ---------------- *)
 (* runs partition the list in order; members of a run share its span; adjacent runs differ (maximality) *)
 Theorem C19_runs_partition : forall caps, concat (map (fun r => fst r :: snd r) (runs caps)) = caps.
 Proof. exact runs_partition. Qed.
@@ -41,26 +100,88 @@ Theorem C19_runs_maximal : forall caps, adjacent_distinct (runs caps).
 Proof. exact runs_adjacent_distinct. Qed.
 Print Assumptions C19_runs_maximal.
 
-(* a merged caption carries the run's times and all nodes in order separated by breaks;
-   a caption alone in its run is unchanged *)
-Theorem C19_merge_run_content : forall c cs,
+(* ---------------- (4) reading aids (unfoldings of the spec; definitional) ---------------- *)
+Theorem C19_retime_unfold : forall skew off c,
+  c_start (retime skew off c) == c_start c * skew + off /\
+  c_end (retime skew off c) == c_end c * skew + off /\
+  c_nodes (retime skew off c) = c_nodes c.
+Proof. exact retime_affine. Qed.
+Print Assumptions C19_retime_unfold.
+Theorem C19_join_run_unfold : forall c cs,
   c_start (join_run (c, cs)) = c_start c /\ c_end (join_run (c, cs)) = c_end c /\
   c_nodes (join_run (c, cs)) = c_nodes c ++ concat (map (fun x => brk :: c_nodes x) cs).
 Proof. exact merge_run_content. Qed.
-Print Assumptions C19_merge_run_content.
-Theorem C19_merge_keeps_singletons : forall c, join_run (c, []) = c.
-Proof. exact merge_keeps_singletons. Qed.
-Print Assumptions C19_merge_keeps_singletons.
+Print Assumptions C19_join_run_unfold.
 
-(* merging again changes nothing *)
-Theorem C19_merge_idempotent : forall caps, nodes_nonempty caps = true ->
-  (do m <- merge_lang caps; merge_lang m) = merge_lang caps.
-Proof. exact merge_twice. Qed.
-Print Assumptions C19_merge_idempotent.
+(* ---------------- non-vacuity ---------------- *)
+Definition cz (s e : Z) (n : list Z) : caption := mkCap (inject_Z s) (inject_Z e) n.
 
-(* non-vacuity: a list with a run in the middle *)
+(* a run in the middle *)
 Example C19_example :
-  let c s e n := mkCap (inject_Z s) (inject_Z e) n in
-  merge_lang [c 0 1 [1%Z]; c 2 3 [2%Z]; c 2 3 [3%Z; 4%Z]; c 5 6 [5%Z]]
-  = Ok [c 0 1 [1%Z]; c 2 3 [2%Z; brk; 3%Z; 4%Z]; c 5 6 [5%Z]].
+  merge_lang [cz 0 1 [1%Z]; cz 2 3 [2%Z]; cz 2 3 [3%Z; 4%Z]; cz 5 6 [5%Z]]
+  = Ok [cz 0 1 [1%Z]; cz 2 3 [2%Z; brk; 3%Z; 4%Z]; cz 5 6 [5%Z]].
 Proof. vm_compute. reflexivity. Qed.
+
+(* A B A: equal spans that are NOT consecutive stay apart; the second caption starts with a break of its own,
+   the first ends with one: every input break is kept and one more is inserted *)
+Example C19_example_aba :
+  merge_lang [cz 0 10 [1%Z; brk]; cz 0 10 [brk; 2%Z]; cz 20 30 [3%Z]; cz 0 10 [4%Z]]
+  = Ok [cz 0 10 [1%Z; brk; brk; brk; 2%Z]; cz 20 30 [3%Z]; cz 0 10 [4%Z]].
+Proof. vm_compute. reflexivity. Qed.
+
+(* int/float-equal spans (1000 and 1000.0 are the same rational, here written 2000/2) are one run *)
+Example C19_example_equal_rationals :
+  merge_lang [mkCap (1000 # 1) (2000 # 1) [1%Z]; mkCap (2000 # 2) (4000 # 2) [2%Z]]
+  = Ok [mkCap (1000 # 1) (2000 # 1) [1%Z; brk; 2%Z]].
+Proof. vm_compute. reflexivity. Qed.
+
+(* hypotheses of C19_merge_ok / C19_merge_concurrent_idempotent are satisfiable, two languages *)
+Example C19_example_merge_ok :
+  let langs := [[cz 0 1 [1%Z]; cz 0 1 [2%Z]; cz 0 1 [3%Z]]; [cz 5 6 [4%Z]]] in
+  forallb nodes_nonempty langs = true /\
+  merge_concurrent langs = Ok [[cz 0 1 [1%Z; brk; 2%Z; brk; 3%Z]]; [cz 5 6 [4%Z]]] /\
+  (do m <- merge_concurrent langs; merge_concurrent m) = merge_concurrent langs.
+Proof. vm_compute. repeat split. Qed.
+
+(* C19_runs_members_same / C19_merge_keeps_singletons instantiated *)
+Example C19_example_runs :
+  runs [cz 0 1 [1%Z]; cz 2 3 [2%Z]; cz 2 3 [3%Z]] = [(cz 0 1 [1%Z], []); (cz 2 3 [2%Z], [cz 2 3 [3%Z]])].
+Proof. vm_compute. reflexivity. Qed.
+
+(* C19_merge_identity: its hypotheses hold of a list with a repeated but non-adjacent span *)
+Example C19_example_identity :
+  let caps := [cz 0 10 [1%Z]; cz 20 30 [2%Z]; cz 0 10 [3%Z]] in
+  nodes_nonempty caps = true /\ no_adjacent_equal caps = true /\ merge_lang caps = Ok caps.
+Proof. vm_compute. repeat split. Qed.
+
+(* outside the domain: an emptied node list in a singleton run raises, in a longer run it contributes nothing *)
+Example C19_example_emptied :
+  merge_lang [cz 0 1 []] = Err ENodeListEmpty /\
+  merge_lang [cz 0 1 []; cz 0 1 [7%Z]] = Ok [cz 0 1 [7%Z]].
+Proof. vm_compute. split; reflexivity. Qed.
+
+(* adjust: skew 1/2, offset -1 s: start 1 s is dropped, start 2 s lands exactly on 0 and is kept *)
+Example C19_example_adjust :
+  adjust_lang (1 # 2) (inject_Z (-1000000)) [cz 1000000 3000000 [1%Z]; cz 2000000 4000000 [2%Z]; cz 5000000 6000000 [3%Z]]
+  = [cz 0 1000000 [2%Z]; cz 1500000 2000000 [3%Z]].
+Proof. vm_compute. reflexivity. Qed.
+
+(* one Caption object under two languages and twice in the second: retimed once (repaired loop), twice or more
+   by the pinned loop (the recorded defect C19-adjust-shared-caption-objects: 123456*2+1/2 = 493825/2) *)
+Example C19_example_shared_object :
+  let h := [cz 123456 2623456 [1%Z]] in
+  adjust_objs (2 # 1) (1 # 2) h [[0%nat]; [0%nat; 0%nat]]
+  = [[mkCap (493825 # 2) (10493825 # 2) [1%Z]]; [mkCap (493825 # 2) (10493825 # 2) [1%Z]; mkCap (493825 # 2) (10493825 # 2) [1%Z]]]
+  /\ refs_ok h [[0%nat]; [0%nat; 0%nat]] = true
+  /\ ok_adjust (2 # 1) (1 # 2) (map (map (deref h)) [[0%nat]; [0%nat; 0%nat]])
+               (adjust_objs_prefix (2 # 1) (1 # 2) h [[0%nat]; [0%nat; 0%nat]]) = false.
+Proof. vm_compute. repeat split. Qed.
+
+(* the oracle is not trivially true: an observer who sees a wrongly kept, a wrongly dropped or a reordered caption *)
+Example C19_example_oracle_rejects :
+  let inp := [[cz 0 10 [1%Z]; cz 20 30 [2%Z]]] in
+  ok_adjust 1 (inject_Z (-5)) inp [[cz (-5) 5 [1%Z]; cz 15 25 [2%Z]]] = false /\
+  ok_adjust 1 (inject_Z (-5)) inp [[]] = false /\
+  ok_adjust 1 5 inp [[cz 25 35 [2%Z]; cz 5 15 [1%Z]]] = false /\
+  ok_adjust 1 (inject_Z (-5)) inp [[cz 15 25 [2%Z]]] = true.
+Proof. vm_compute. repeat split. Qed.
